@@ -401,6 +401,29 @@ pub fn structured_faults(doc: &J, sink: &mut dyn FnMut(Faulted)) {
         let here = describe(doc, p);
         match node {
             J::Obj(m) => {
+                // members in another order (maps that are kept in document order notice)
+                if m.len() >= 2 {
+                    let mut d = doc.clone();
+                    if let Some(J::Obj(mm)) = get_mut(&mut d, p) {
+                        mm.reverse();
+                    }
+                    sink(Faulted {
+                        kind: "VALUE_ALTER",
+                        what: format!("members of {} in reverse order", here),
+                        text: render(&d),
+                    });
+                    for i in 0..(m.len() - 1).min(6) {
+                        let mut d = doc.clone();
+                        if let Some(J::Obj(mm)) = get_mut(&mut d, p) {
+                            mm.swap(i, i + 1);
+                        }
+                        sink(Faulted {
+                            kind: "VALUE_ALTER",
+                            what: format!("members {} and {} of {} swapped", m[i].0, m[i + 1].0, here),
+                            text: render(&d),
+                        });
+                    }
+                }
                 for i in 0..m.len() {
                     let mut d = doc.clone();
                     if let Some(J::Obj(mm)) = get_mut(&mut d, p) {
